@@ -3020,3 +3020,151 @@ func rulePXLocalDot(c *Ctx) []Obligation {
 	}
 	return o.list
 }
+
+// ---------------------------------------------------------------------------------------------
+// P-CTOR on paths
+
+// fieldOfObj: final content of field f of the path-local object t points to (nil if never set).
+func (p *PXPath) fieldOfObj(t *T, f string) *T {
+	if t == nil || t.Op != "alloc" {
+		return nil
+	}
+	k := "o" + strconv.Itoa(t.Obj)
+	if v, ok := p.Mem[k]; ok && v.Op == "struct" {
+		return v.Fields[f]
+	}
+	return p.Mem[k+"."+f]
+}
+
+func (p *PXPath) mapIsFreshEmpty(t *T) bool {
+	if t == nil || t.Op != "make" || !isMapType(t.Typ) {
+		return false
+	}
+	pre := "m" + strconv.Itoa(t.Inst) + "#"
+	for k := range p.Mem {
+		if strings.HasPrefix(k, pre) && !strings.HasSuffix(k, "#n") {
+			return false
+		}
+	}
+	return true
+}
+
+func rulePXCtor(c *Ctx) []Obligation {
+	o := c.newObs("P-CTOR")
+	ft := c.fileType()
+	n := 0
+	guess := c.role("guessAlias")
+	for _, f := range c.allFuncs(c.Jen) {
+		if f.Parent() != nil || f.Signature.Recv() != nil || f.Signature.Results().Len() != 1 || !isExportedName(f.Name()) {
+			continue
+		}
+		pt, ok := f.Signature.Results().At(0).Type().(*types.Pointer)
+		if !ok || !types.Identical(pt.Elem(), ft) {
+			continue
+		}
+		n++
+		fn := fname(f)
+		paths, trunc := c.Paths(f, PXConfig{Opaque: func(g *ssa.Function) bool { return g == guess }})
+		if trunc || len(paths) == 0 {
+			o.undecided(fn, "path enumeration", f.Pos(), "%d paths, truncated %v", len(paths), trunc)
+			continue
+		}
+		t := newTally(o, fn, f.Pos())
+		for _, p := range paths {
+			if p.End != "return" || len(p.Ret) != 1 || p.Ret[0].Op != "alloc" {
+				t.note("returns a freshly allocated File", false, "path %s ends in %s returning %v", traceOf(p), p.End, p.Ret)
+				continue
+			}
+			t.note("returns a freshly allocated File", true, "")
+			r := p.Ret[0]
+			im, hi := p.fieldOfObj(r, c.ff("imports")), p.fieldOfObj(r, c.ff("hints"))
+			t.note("imports is a fresh empty map", p.mapIsFreshEmpty(im), "path %s: imports = %v (a nil map makes the first registration panic; a shared or pre-filled one leaks names between files)", traceOf(p), im)
+			t.note("hints is a fresh empty map", p.mapIsFreshEmpty(hi) && (im == nil || hi == nil || im.Inst != hi.Inst), "path %s: hints = %v", traceOf(p), hi)
+			g := p.fieldOfObj(r, "Group")
+			okG := g != nil && g.Op == "alloc"
+			if okG {
+				for _, fld := range structFieldNames(c.groupType()) {
+					v := p.fieldOfObj(g, fld)
+					switch {
+					case v == nil:
+						if fld == "multi" {
+							okG = false
+						}
+					case fld == "multi":
+						if b, isB := v.boolVal(); !isB || !b {
+							okG = false
+						}
+					default:
+						if s, isS := v.strVal(); isS && s == "" {
+							continue
+						}
+						if v.Op == "const" && v.Nil {
+							continue
+						}
+						if v.Op == "elems" && len(v.Elems) == 0 {
+							continue
+						}
+						okG = false
+					}
+				}
+			}
+			t.note("the File's group is a fresh multi-line group without delimiters", okG, "path %s: Group = %s — top-level declarations must each start on their own line", traceOf(p), p.Deep(g))
+		}
+		t.require("returns a freshly allocated File", "imports is a fresh empty map", "hints is a fresh empty map", "the File's group is a fresh multi-line group without delimiters")
+		t.flush()
+	}
+	if n < 3 {
+		o.undecided("jen", "File constructors", token.NoPos, "expected 3 constructors, found %d", n)
+	}
+	// comment setters: HeaderComment / PackageComment / CgoPreamble append their argument unmodified
+	targets := map[string]bool{c.ff("headers"): true, c.ff("comments"): true, c.ff("preamble"): true}
+	for _, f := range c.allFuncs(c.Jen) {
+		if f.Parent() != nil || !isFileMethod(c, f) || !isExportedName(f.Name()) || f.Signature.Params().Len() != 1 || f.Signature.Results().Len() != 0 {
+			continue
+		}
+		if b, ok := f.Signature.Params().At(0).Type().Underlying().(*types.Basic); !ok || b.Kind() != types.String {
+			continue
+		}
+		paths, trunc := c.Paths(f, PXConfig{})
+		if trunc || len(paths) == 0 {
+			continue
+		}
+		touches := false
+		t := newTally(o, fname(f), f.Pos())
+		for _, p := range paths {
+			nst := 0
+			for _, e := range p.Events {
+				if e.Kind != "store" || e.Recv == nil {
+					continue
+				}
+				rs := e.Recv.String()
+				fld := strings.TrimPrefix(strings.TrimPrefix(rs, "&"), "recv.")
+				if fld == rs || !targets[fld] {
+					continue
+				}
+				touches = true
+				nst++
+				v := e.Args[0]
+				ok := v.Op == "append" && len(v.A) == 2 && v.A[0].String() == "recv."+fld && (v.A[1].String() == "p0" || v.A[1].String() == "[p0]") && len(p.Facts) == 0
+				t.note("appends the caller's text, whole and unmodified, to File."+fld, ok, "path %s stores %s under %s — splitting or rewriting the text changes which comment form (line / block / raw) each piece takes when it is rendered", traceOf(p), v, p.Facts)
+			}
+			if touches && nst == 0 {
+				t.note("appends the caller's text on every path", false, "path %s stores nothing (facts %s)", traceOf(p), p.Facts)
+			}
+		}
+		t.flush()
+	}
+	return o.list
+}
+
+func structFieldNames(t types.Type) []string {
+	st, ok := t.Underlying().(*types.Struct)
+	if !ok {
+		return nil
+	}
+	var out []string
+	for i := 0; i < st.NumFields(); i++ {
+		out = append(out, st.Field(i).Name())
+	}
+	return out
+}
